@@ -37,6 +37,9 @@ def serialize_json(
     """
     primary = elements[0]
     object_classes = get_object_classes(*elements)
+    # Classes which only a supplied definition refers to need defining too.
+    for definition in (definitions or {}).values():
+        object_classes += get_object_classes(*get_children(definition))
     # The top level element is only a definition if something refers to it.
     referenced = [
         child for element in elements for child in get_children(element)
